@@ -47,7 +47,7 @@ def tset(xs):
     return "{" + ", ".join(json.dumps(x) if isinstance(x, str) else str(x) for x in xs) + "}"
 
 
-FULL_TYPES = ["SOA", "NS", "A", "CNAME", "NSEC", "RRSIG/A", "RRSIG/CNAME"]
+FULL_TYPES = ["SOA", "NS", "A", "CNAME", "NSEC", "RRSIG/A", "RRSIG/NS", "RRSIG/CNAME"]
 
 
 def gen_cfg(ctx, name, **kw):
